@@ -20,13 +20,13 @@ def shouldSkipDir (name : String) : Bool :=
 def isTestFileName (n : String) : Bool :=
   n == "conftest.py" || (n.startsWith "test_" && n.endsWith ".py") || n.endsWith "_test.py"
 
-/-- phase 1 for one file: `pfx` = absolute location of the root, `f` = path below the root.
-    WalkDir's `filter_entry` prunes directories by NAME (the root entry included), then the loop
-    re-tests every component of the ABSOLUTE path, then the exclude patterns (root-relative), then
-    the file name. -/
-def discovered (pfx : Path) (excluded : Path → Bool) (f : Path) : Bool :=
-  !(pfx ++ f).dropLast.any shouldSkipDir &&
-  -- (a file's own name is a component too: `components().any(...)` runs over all of them)
+/-- phase 1 for one file `f` (path below the workspace root).  WalkDir's `filter_entry` prunes
+    directories by NAME below the root (the root entry itself is always entered), then the loop
+    re-tests every component of the ROOT-RELATIVE path (the file's own name included), then the
+    exclude patterns (root-relative), then the file name.  (E10 repaired: the absolute location
+    of the root plays no role; `pfx` is kept as a parameter so that this is a theorem.) -/
+def discovered (_pfx : Path) (excluded : Path → Bool) (f : Path) : Bool :=
+  !f.dropLast.any shouldSkipDir &&
   !(match f.getLast? with | some n => shouldSkipDir n | none => false) &&
   !excluded f &&
   (match f.getLast? with | some n => isTestFileName n | none => false)
